@@ -309,6 +309,61 @@ func runC12(c *Ctx) {
 					map[string]any{"point": p, "doc": json.RawMessage(docJSON)})
 			}
 		}
+		// the same line with a second combo after it (another category of the regime,
+		// percentage given): the first combo's verdict must not depend on what follows
+		if p.ValueDateMode == "issue" {
+			other := ""
+			for _, oc := range reg.Categories {
+				if oc.Code != p.Cat {
+					other = oc.Code
+					break
+				}
+			}
+			if other != "" {
+				inv := map[string]any{
+					"$schema": "https://gobl.org/draft-0/bill/invoice", "$regime": p.Regime, "code": "T-2", "issue_date": p.Date, "currency": reg.Currency,
+					"supplier": map[string]any{"name": "Supplier", "tax_id": map[string]any{"country": p.Regime}},
+					"customer": map[string]any{"name": "Customer"},
+					"lines": []any{map[string]any{"quantity": "1", "item": map[string]any{"name": "thing", "price": "100.00"},
+						"taxes": []any{map[string]any{"cat": p.Cat, "rate": p.Rate, "ext": p.Ext}, map[string]any{"cat": other, "percent": "1.0%"}}}},
+				}
+				if len(p.Ext) == 0 {
+					delete(inv["lines"].([]any)[0].(map[string]any)["taxes"].([]any)[0].(map[string]any), "ext")
+				}
+				docJSON, _ := json.Marshal(inv)
+				var out []byte
+				var cerr error
+				if pan, _ := Safely(func() {
+					env, err := gx.EnvelopDoc(docJSON)
+					if cerr = err; err == nil {
+						out, cerr = json.Marshal(env)
+					}
+				}); pan == nil {
+					c.R.Count("path_invoice_two_combos", 1)
+					g1, g2 := "", ""
+					if cerr == nil {
+						var e struct {
+							Doc struct {
+								Lines []struct {
+									Taxes []struct {
+										Percent   string `json:"percent"`
+										Surcharge string `json:"surcharge"`
+									} `json:"taxes"`
+								} `json:"lines"`
+							} `json:"doc"`
+						}
+						if json.Unmarshal(out, &e) == nil && len(e.Doc.Lines) == 1 && len(e.Doc.Lines[0].Taxes) == 2 {
+							g1, g2 = e.Doc.Lines[0].Taxes[0].Percent, e.Doc.Lines[0].Taxes[0].Surcharge
+						}
+					}
+					if (cerr != nil) != wantErr || (cerr == nil && (!pctEq(g1, wantPct) || !pctEq(g2, wantSur))) {
+						c.R.Fail(fmt.Sprintf("%s:%s:%s:%s:invoice:two-combos", cls, p.Regime, p.Cat, p.Rate),
+							fmt.Sprintf("invoice %s issue=%s line taxes [%s/%s, %s 1.0%%] got percent=%q surcharge=%q err=%v for the first combo; table value in force is %q/%q (error expected=%v)", p.Regime, p.Date, p.Cat, p.Rate, other, g1, g2, cerr, wantPct, wantSur, wantErr),
+							map[string]any{"point": p, "doc": json.RawMessage(docJSON)})
+					}
+				}
+			}
+		}
 		if wantErr {
 			c.R.Count("before_first_value_points", 1)
 		}
